@@ -869,7 +869,14 @@ class Constant(Expression):
     def switch_endian(self, fmt):
         if not isinstance(fmt, str) or len(fmt) == 1:
             return self
-        return Constant(self.ebpf, *unpack(fmt, pack(fmt[-1], self.value)))
+        value = self.value
+        if fmt[-1] in "bBhHiIqQ":
+            # like a native store, keep the low bytes of a too large constant
+            bits = 8 * calcsize(fmt[-1])
+            value = int(value) & ((1 << bits) - 1)
+            if fmt[-1].islower() and value >> (bits - 1):
+                value -= 1 << bits
+        return Constant(self.ebpf, *unpack(fmt, pack(fmt[-1], value)))
 
 
 class Register(Expression):
